@@ -18,33 +18,11 @@ package decoder
 //@   ensures [C09] implies(isList, result == listT)
 //@   ensures [C09] implies(isMap, result == mapT)
 //@   ensures [C09] implies(isSet, result == setT)
-//@   ghost objT after cty.Object#1 : callresult
-//@   ghost objL after cty.Object#2 : callresult
-//@   ghost objM after cty.Object#3 : callresult
-//@   ghost objS after cty.Object#4 : callresult
-//@   ghost objD after cty.Object#5 : callresult
-//@   ghost isObj after cty.Object#1 : true
-//@   ghost isDflt after cty.Object#5 : true
-//@   ensures [C09,name:object-block-is-an-object] implies(blockType == schema.BlockTypeObject, isObj && result == objT)
-//@   ensures [C09,name:any-other-block-is-an-object] implies(blockType != schema.BlockTypeObject && blockType != schema.BlockTypeList && blockType != schema.BlockTypeMap && blockType != schema.BlockTypeSet, isDflt && result == objD)
-//@   assert before cty.List#1 : [C09,name:elements-are-objects-of-the-body] arg0 == objL
-//@   assert before cty.Map#1 : [C09,name:elements-are-objects-of-the-body] arg0 == objM
-//@   assert before cty.Set#1 : [C09,name:elements-are-objects-of-the-body] arg0 == objS
-//@   ghost attrsT after decoder.bodySchemaAsAttrTypes#1 : callresult
-//@   ghost attrsL after decoder.bodySchemaAsAttrTypes#2 : callresult
-//@   ghost attrsM after decoder.bodySchemaAsAttrTypes#3 : callresult
-//@   ghost attrsS after decoder.bodySchemaAsAttrTypes#4 : callresult
-//@   ghost attrsD after decoder.bodySchemaAsAttrTypes#5 : callresult
-//@   assert before cty.Object#1 : [C09,name:object-of-the-attribute-types-of-the-body] arg0 == attrsT
-//@   assert before cty.Object#2 : [C09,name:object-of-the-attribute-types-of-the-body] arg0 == attrsL
-//@   assert before cty.Object#3 : [C09,name:object-of-the-attribute-types-of-the-body] arg0 == attrsM
-//@   assert before cty.Object#4 : [C09,name:object-of-the-attribute-types-of-the-body] arg0 == attrsS
-//@   assert before cty.Object#5 : [C09,name:object-of-the-attribute-types-of-the-body] arg0 == attrsD
-//@   assert before decoder.bodySchemaAsAttrTypes#1 : [C09] arg0 == body
-//@   assert before decoder.bodySchemaAsAttrTypes#2 : [C09] arg0 == body
-//@   assert before decoder.bodySchemaAsAttrTypes#3 : [C09] arg0 == body
-//@   assert before decoder.bodySchemaAsAttrTypes#4 : [C09] arg0 == body
-//@   assert before decoder.bodySchemaAsAttrTypes#5 : [C09] arg0 == body
+//@   assert before decoder.bodySchemaAsAttrTypes#1 : [C09,name:attribute-types-of-this-body] arg0 == body
+//@   assert before decoder.bodySchemaAsAttrTypes#2 : [C09,name:attribute-types-of-this-body] arg0 == body
+//@   assert before decoder.bodySchemaAsAttrTypes#3 : [C09,name:attribute-types-of-this-body] arg0 == body
+//@   assert before decoder.bodySchemaAsAttrTypes#4 : [C09,name:attribute-types-of-this-body] arg0 == body
+//@   assert before decoder.bodySchemaAsAttrTypes#5 : [C09,name:attribute-types-of-this-body] arg0 == body
 
 // ---- C09: the attribute types of a body: an attribute is part of the data type exactly when its constraint
 // ---- yields a type, and then with that type; every nested block is a member under its block type name, typed
@@ -99,7 +77,7 @@ package decoder
 //@   loop 1 iter [C09,name:only-an-unreadable-file-is-skipped] decoded || err != nil
 
 // ---- C09 (C08/C11 for the block-local address): inferred targets of a body whose content is addressable as
-// ---- data. Loop 1: one group of targets per typed schema attribute; loops 2-8: one target per nested block
+// ---- data. Loop 1: one group of targets per typed schema attribute; loops 2-8 (numbered in source order): one target per nested block
 // ---- type of kind object / list / set / map, with one nested target per written block of a list or map.
 //@ spec sameRangeAt(p *hcl.Range, q *hcl.Range) bool = p != nil && q != nil && p.Filename == q.Filename && p.Start == q.Start && p.End == q.End
 //@ contract (*decoder.PathDecoder).collectInferredReferenceTargetsForBody (d, addr, bAddrSchema, body, bodySchema, selfRefBodyRangePtr, selfRefAddr) (result)
@@ -124,35 +102,35 @@ package decoder
 //@   loop 2 iter [C09,C11,name:object-block-local-address] ite(collectLocalAddr, len(lastRef(refs).LocalAddr) == len(selfRefAddr) + 1 && isAttrStepNamed(lastRef(refs).LocalAddr[len(selfRefAddr)], bType) && lastRef(refs).TargetableFromRangePtr != nil, len(lastRef(refs).LocalAddr) == 0 && lastRef(refs).TargetableFromRangePtr == nil)
 //@   assert before (*decoder.PathDecoder).collectInferredReferenceTargetsForBody#1 : [C09,name:nested-targets-of-the-block-s-own-body-under-its-own-schema-and-address] arg1 == blockAddr && arg2 == bAddrSchema && arg3 == blk.Body && arg4 == bCollection.Schema.Body && arg6 == blockRef.LocalAddr
 //@   assert before decoder.bodySchemaAsAttrTypes#1 : [C09,name:typed-by-the-block-s-own-body-schema] arg0 == bCollection.Schema.Body
-// list blocks (loops 3, 6): one target for the block type and one nested target per written block, indexed by position
+// list blocks (loops 3, 4): one target for the block type and one nested target per written block, indexed by position
 //@   spec isIndexStepKeyed(s lang.AddressStep, k cty.Value) bool = typeis(s, "lang.IndexStep") && as(s, "lang.IndexStep").Key == k
 //@   loop 3 iter [C09,name:one-target-per-list-block-type] len(refs) == old(len(refs)) + 1
 //@   loop 3 iter [C09,name:list-block-address-is-the-body-address-plus-the-block-type] len(lastRef(refs).Addr) == len(addr) + 1 && isAttrStepNamed(lastRef(refs).Addr[len(addr)], bType) && lastRef(refs).ScopeId == bAddrSchema.ScopeId
 //@   loop 3 iter [C09,name:one-nested-target-per-written-block] len(lastRef(refs).NestedTargets) == old(len(bCollection.Blocks))
 //@   loop 3 iter [C09,C11,name:list-block-local-address] ite(collectLocalAddr, len(lastRef(refs).LocalAddr) == len(selfRefAddr) + 1 && lastRef(refs).TargetableFromRangePtr != nil, len(lastRef(refs).LocalAddr) == 0 && lastRef(refs).TargetableFromRangePtr == nil)
-//@   loop 6 invariant [C09] len(blockRef.NestedTargets) == rangeindex + 1 && blockRef.Addr == blockAddr && blockRef.ScopeId == bAddrSchema.ScopeId
-//@   loop 6 invariant [C09] len(blockAddr) == len(addr) + 1 && isAttrStepNamed(blockAddr[len(addr)], bType)
-//@   loop 6 invariant [C09] implies(collectLocalAddr, len(blockRef.LocalAddr) == len(selfRefAddr) + 1 && blockRef.TargetableFromRangePtr != nil)
-//@   loop 6 invariant [C09] implies(!collectLocalAddr, len(blockRef.LocalAddr) == 0 && blockRef.TargetableFromRangePtr == nil)
-//@   loop 6 iter [C09,name:one-element-per-written-block] len(blockRef.NestedTargets) == old(len(blockRef.NestedTargets)) + 1
-//@   loop 6 iter [C09,C02,name:first-list-element-keeps-its-own-extent] implies(i > 0, blockRef.NestedTargets[0].RangePtr.End == bCollection.Blocks[0].Range.End)
-//@   loop 6 iter [C09,name:list-element-address-is-the-list-address-plus-its-position] len(lastRef(blockRef.NestedTargets).Addr) == len(blockAddr) + 1 && isIndexStepKeyed(lastRef(blockRef.NestedTargets).Addr[len(blockAddr)], cty.NumberIntVal(int64(i))) && lastRef(blockRef.NestedTargets).ScopeId == bAddrSchema.ScopeId
-//@   loop 6 iter [C09,C02,name:list-element-range-and-header] sameRangeVal(lastRef(blockRef.NestedTargets).DefRangePtr, b.DefRange) && lastRef(blockRef.NestedTargets).RangePtr != nil && lastRef(blockRef.NestedTargets).RangePtr.Start == b.Range.Start && lastRef(blockRef.NestedTargets).RangePtr.Filename == b.Range.Filename
-//@   loop 6 iter [C09,C11,name:list-element-local-address] ite(collectLocalAddr, len(lastRef(blockRef.NestedTargets).LocalAddr) == len(blockRef.LocalAddr) + 1 && isIndexStepKeyed(lastRef(blockRef.NestedTargets).LocalAddr[len(blockRef.LocalAddr)], cty.NumberIntVal(int64(i))) && lastRef(blockRef.NestedTargets).TargetableFromRangePtr != nil, len(lastRef(blockRef.NestedTargets).LocalAddr) == 0 && lastRef(blockRef.NestedTargets).TargetableFromRangePtr == nil)
+//@   loop 4 invariant [C09] len(blockRef.NestedTargets) == rangeindex + 1 && blockRef.Addr == blockAddr && blockRef.ScopeId == bAddrSchema.ScopeId
+//@   loop 4 invariant [C09] len(blockAddr) == len(addr) + 1 && isAttrStepNamed(blockAddr[len(addr)], bType)
+//@   loop 4 invariant [C09] implies(collectLocalAddr, len(blockRef.LocalAddr) == len(selfRefAddr) + 1 && blockRef.TargetableFromRangePtr != nil)
+//@   loop 4 invariant [C09] implies(!collectLocalAddr, len(blockRef.LocalAddr) == 0 && blockRef.TargetableFromRangePtr == nil)
+//@   loop 4 iter [C09,name:one-element-per-written-block] len(blockRef.NestedTargets) == old(len(blockRef.NestedTargets)) + 1
+//@   loop 4 iter [C09,C02,name:first-list-element-keeps-its-own-extent] implies(i > 0, blockRef.NestedTargets[0].RangePtr.End == bCollection.Blocks[0].Range.End)
+//@   loop 4 iter [C09,name:list-element-address-is-the-list-address-plus-its-position] len(lastRef(blockRef.NestedTargets).Addr) == len(blockAddr) + 1 && isIndexStepKeyed(lastRef(blockRef.NestedTargets).Addr[len(blockAddr)], cty.NumberIntVal(int64(i))) && lastRef(blockRef.NestedTargets).ScopeId == bAddrSchema.ScopeId
+//@   loop 4 iter [C09,C02,name:list-element-range-and-header] sameRangeVal(lastRef(blockRef.NestedTargets).DefRangePtr, b.DefRange) && lastRef(blockRef.NestedTargets).RangePtr != nil && lastRef(blockRef.NestedTargets).RangePtr.Start == b.Range.Start && lastRef(blockRef.NestedTargets).RangePtr.Filename == b.Range.Filename
+//@   loop 4 iter [C09,C11,name:list-element-local-address] ite(collectLocalAddr, len(lastRef(blockRef.NestedTargets).LocalAddr) == len(blockRef.LocalAddr) + 1 && isIndexStepKeyed(lastRef(blockRef.NestedTargets).LocalAddr[len(blockRef.LocalAddr)], cty.NumberIntVal(int64(i))) && lastRef(blockRef.NestedTargets).TargetableFromRangePtr != nil, len(lastRef(blockRef.NestedTargets).LocalAddr) == 0 && lastRef(blockRef.NestedTargets).TargetableFromRangePtr == nil)
 //@   assert before (*decoder.PathDecoder).collectInferredReferenceTargetsForBody#2 : [C09,name:nested-targets-of-the-element-s-own-body-under-its-own-schema-and-address] arg1 == elemAddr && arg2 == bAddrSchema && arg3 == b.Body && arg4 == bCollection.Schema.Body && arg6 == elemRef.LocalAddr
 //@   assert before decoder.bodySchemaAsAttrTypes#2 : [C09,name:typed-by-the-block-s-own-body-schema] arg0 == bCollection.Schema.Body
 //@   assert before decoder.bodySchemaAsAttrTypes#3 : [C09,name:typed-by-the-block-s-own-body-schema] arg0 == bCollection.Schema.Body
 //@   spec sameRangeVal(p *hcl.Range, r hcl.Range) bool = p != nil && p.Filename == r.Filename && p.Start == r.Start && p.End == r.End
-// set blocks (loops 4, 7): one target for the block type, no nested targets
-//@   loop 4 iter [C09,name:one-target-per-set-block-type] len(refs) == old(len(refs)) + 1
-//@   loop 4 iter [C09,name:set-block-address-is-the-body-address-plus-the-block-type] len(lastRef(refs).Addr) == len(addr) + 1 && isAttrStepNamed(lastRef(refs).Addr[len(addr)], bType) && lastRef(refs).ScopeId == bAddrSchema.ScopeId
-//@   loop 7 invariant [C09] blockRef.Addr == blockAddr && blockRef.ScopeId == bAddrSchema.ScopeId && len(blockAddr) == len(addr) + 1 && isAttrStepNamed(blockAddr[len(addr)], bType)
+// set blocks (loops 5, 6): one target for the block type, no nested targets
+//@   loop 5 iter [C09,name:one-target-per-set-block-type] len(refs) == old(len(refs)) + 1
+//@   loop 5 iter [C09,name:set-block-address-is-the-body-address-plus-the-block-type] len(lastRef(refs).Addr) == len(addr) + 1 && isAttrStepNamed(lastRef(refs).Addr[len(addr)], bType) && lastRef(refs).ScopeId == bAddrSchema.ScopeId
+//@   loop 6 invariant [C09] blockRef.Addr == blockAddr && blockRef.ScopeId == bAddrSchema.ScopeId && len(blockAddr) == len(addr) + 1 && isAttrStepNamed(blockAddr[len(addr)], bType)
 //@   assert before decoder.bodySchemaAsAttrTypes#4 : [C09,name:typed-by-the-block-s-own-body-schema] arg0 == bCollection.Schema.Body
-// map blocks (loops 5, 8): one target for the block type and one nested target per written block, keyed by its label
-//@   loop 5 iter [C09,name:one-target-per-map-block-type] len(refs) == old(len(refs)) + 1
-//@   loop 5 iter [C09,name:map-block-address-is-the-body-address-plus-the-block-type] len(lastRef(refs).Addr) == len(addr) + 1 && isAttrStepNamed(lastRef(refs).Addr[len(addr)], bType) && lastRef(refs).ScopeId == bAddrSchema.ScopeId
-//@   loop 5 iter [C09,name:one-nested-target-per-written-block] len(lastRef(refs).NestedTargets) == old(len(bCollection.Blocks))
-//@   loop 5 iter [C09,C11,name:map-block-local-address] ite(collectLocalAddr, len(lastRef(refs).LocalAddr) == len(selfRefAddr) + 1 && lastRef(refs).TargetableFromRangePtr != nil, len(lastRef(refs).LocalAddr) == 0 && lastRef(refs).TargetableFromRangePtr == nil)
+// map blocks (loops 7, 8): one target for the block type and one nested target per written block, keyed by its label
+//@   loop 7 iter [C09,name:one-target-per-map-block-type] len(refs) == old(len(refs)) + 1
+//@   loop 7 iter [C09,name:map-block-address-is-the-body-address-plus-the-block-type] len(lastRef(refs).Addr) == len(addr) + 1 && isAttrStepNamed(lastRef(refs).Addr[len(addr)], bType) && lastRef(refs).ScopeId == bAddrSchema.ScopeId
+//@   loop 7 iter [C09,name:one-nested-target-per-written-block] len(lastRef(refs).NestedTargets) == old(len(bCollection.Blocks))
+//@   loop 7 iter [C09,C11,name:map-block-local-address] ite(collectLocalAddr, len(lastRef(refs).LocalAddr) == len(selfRefAddr) + 1 && lastRef(refs).TargetableFromRangePtr != nil, len(lastRef(refs).LocalAddr) == 0 && lastRef(refs).TargetableFromRangePtr == nil)
 //@   loop 8 invariant [C09] len(blockRef.NestedTargets) == rangeindex + 1 && blockRef.Addr == blockAddr && blockRef.ScopeId == bAddrSchema.ScopeId
 //@   loop 8 invariant [C09] len(blockAddr) == len(addr) + 1 && isAttrStepNamed(blockAddr[len(addr)], bType)
 //@   loop 8 invariant [C09] implies(collectLocalAddr, len(blockRef.LocalAddr) == len(selfRefAddr) + 1 && blockRef.TargetableFromRangePtr != nil)
